@@ -48,7 +48,7 @@ pub struct C06 {
 // ---------------------------------------------------------------------------------------------------
 
 pub const KINDS: [&str; 7] = ["cw-rect", "ccw-rect", "L", "triangle", "box", "path", "right-trapezoid"];
-const KIND_TAGS: [&str; 13] = ["kind:cw-rect", "kind:ccw-rect", "kind:L", "kind:triangle", "kind:box", "kind:path", "kind:right-trapezoid", "kind:all", "kind:diagonal-path", "kind:path-width-3", "kind:path-width-1", "kind:path-diagonal-then-straight", "kind:path-straight-diagonal-straight"];
+const KIND_TAGS: [&str; 14] = ["kind:cw-rect", "kind:ccw-rect", "kind:L", "kind:triangle", "kind:box", "kind:path", "kind:right-trapezoid", "kind:all", "kind:diagonal-path", "kind:path-width-3", "kind:path-width-1", "kind:path-diagonal-then-straight", "kind:path-straight-diagonal-straight", "kind:path-closed-ring"];
 const ORIENT_TAGS_S: [&str; 8] = ["sref:R0", "sref:R90", "sref:R180", "sref:R270", "sref:MX", "sref:MX-R90", "sref:MX-R180", "sref:MX-R270"];
 const ORIENT_TAGS_A: [&str; 8] = ["aref:R0", "aref:R90", "aref:R180", "aref:R270", "aref:MX", "aref:MX-R90", "aref:MX-R180", "aref:MX-R270"];
 const LATTICE_TAGS: [&str; 5] = ["lattice:axis", "lattice:rotated-with-angle", "lattice:negative-pitch", "lattice:skew", "lattice:cols-along-y"];
@@ -85,6 +85,8 @@ fn shape_elem(kind: usize, layer: i16, dt: i16, off: (i32, i32)) -> GdsElement {
         10 => GdsPath { layer, datatype: dt, width: Some(1), xy: [(10, 5), (10, 45), (40, 45)].iter().map(|p| gp((p.0 + off.0, p.1 + off.1))).collect(), ..Default::default() }.into(),
         // paths with a diagonal segment before / between axis-parallel ones (membership is fixed on the latter)
         11 => GdsPath { layer, datatype: dt, width: Some(4), xy: [(10, 5), (40, 35), (90, 35)].iter().map(|p| gp((p.0 + off.0, p.1 + off.1))).collect(), ..Default::default() }.into(),
+        // a path that returns to its first point (it keeps all five points)
+        13 => GdsPath { layer, datatype: dt, width: Some(4), xy: [(10, 5), (60, 5), (60, 45), (10, 45), (10, 5)].iter().map(|p| gp((p.0 + off.0, p.1 + off.1))).collect(), ..Default::default() }.into(),
         12 => GdsPath { layer, datatype: dt, width: Some(4), xy: [(10, 5), (10, 45), (40, 75), (90, 75)].iter().map(|p| gp((p.0 + off.0, p.1 + off.1))).collect(), ..Default::default() }.into(),
         8 => GdsPath { layer, datatype: dt, width: Some(4), xy: [(10, 5), (40, 35)].iter().map(|p| gp((p.0 + off.0, p.1 + off.1))).collect(), ..Default::default() }.into(),
         _ => panic!("MACHINERY: C06 bad shape kind {kind}"),
@@ -211,8 +213,8 @@ fn gen_ref(c: &mut Chooser, target: &str, allow_big: bool, tags: &mut Vec<&'stat
         return GdsStructRef { name: target.into(), xy: gp(loc), strans: st, ..Default::default() }.into();
     }
     tags.push(ORIENT_TAGS_A[o]);
-    let mut cols = c.cost_of(&[2i16, 1, 3], "cols");
-    let mut rows = c.cost_of(&[3i16, 1, 2], "rows");
+    // every pair of {1,2,3}^2 as one choice (a single placement 1 x 1 included)
+    let (mut cols, mut rows) = c.cost_of(&[(2i16, 3i16), (1, 3), (3, 3), (2, 1), (2, 2), (1, 1), (1, 2), (3, 1), (3, 2)], "cols-rows");
     let lattice = c.cost(5, "lattice");
     tags.push(LATTICE_TAGS[lattice]);
     let big = if allow_big { c.cost(5, "large-array") } else { 0 };
@@ -270,6 +272,8 @@ impl C06 {
                 let wrapper = c.cost(2, "level-without-own-shapes") == 1;
                 if wrapper {
                     tags.push("hier:wrapper-level");
+                    // such a level still carries a label: it lies in no shape and must survive as an annotation
+                    s.elems.push(text(20 + k as i16, "chip", (1, 2 + k as i32)));
                 }
                 if !wrapper {
                     s.elems.push(GdsBoundary { layer: 20 + k as i16, datatype: 1 + k as i16, xy: closed(&[(x0, y0), (x0 + 6, y0), (x0 + 6, y0 + 4 + 2 * k as i32), (x0, y0 + 4 + 2 * k as i32)], (0, 0)), ..Default::default() }.into());
@@ -398,7 +402,7 @@ impl C06 {
     /// on, next to and far from every edge and every *extended* edge line, inside and outside the bounding box.
     fn gen_grid(&self, _t: Tier, c: &mut Chooser) -> Case {
         // the seven kinds of the label part plus paths of odd width (3, three segments) and of width 1
-        let kind = [0usize, 1, 2, 3, 4, 5, 6, 9, 10, 11, 12][c.free(11, "shape-kind")];
+        let kind = [0usize, 1, 2, 3, 4, 5, 6, 9, 10, 11, 12, 13][c.free(12, "shape-kind")];
         let start_vertex = c.free(4, "start-vertex");
         let reverse = c.free(2, "reverse-direction") == 1;
         let e = shape_elem(kind, 7, 3, (0, 0));
@@ -843,7 +847,7 @@ impl CaseDriver for C06 {
     fn describe(&self, tier: Tier) -> Describe {
         let rule = match self.part {
             Part::Hier => format!(
-                "GDS libraries of 1..3 levels (chain top -> ... -> leaf, optionally the top also placing the leaf), structs listed in every order; each reference SREF or AREF x all 8 Manhattan orientations (free); leaf content = one of {KINDS:?} or all seven together (free); costed (deviation bound {}): STRANS spelling (absent / explicit Some(0.0) / present-but-default / the same rotation as a negative angle 90q-360 / beyond one turn 90q+360), offsets {LOCS:?}, array cols x rows in {{1,2,3}}^2, lattice (axis-parallel, rotated with the angle, negative pitch, skewed, columns along y), large arrays 181x181 / 200x200 / 1x32767 / 32767x1 (two-level libraries only), a label inside the leaf shape, a level holding nothing but its reference (no shapes of its own), leaf shapes on (layer, datatype) pairs with data types of 256 / 300 / -1 next to small ones, leaf shapes 6e6 .. 2e9 units away from the origin, struct names that differ only in letter case. Non-trivial = has at least one reference.",
+                "GDS libraries of 1..3 levels (chain top -> ... -> leaf, optionally the top also placing the leaf), structs listed in every order; each reference SREF or AREF x all 8 Manhattan orientations (free); leaf content = one of {KINDS:?} or all seven together (free); costed (deviation bound {}): STRANS spelling (absent / explicit Some(0.0) / present-but-default / the same rotation as a negative angle 90q-360 / beyond one turn 90q+360), offsets {LOCS:?}, array cols x rows in {{1,2,3}}^2, lattice (axis-parallel, rotated with the angle, negative pitch, skewed, columns along y), large arrays 181x181 / 200x200 / 1x32767 / 32767x1 (two-level libraries only), a label inside the leaf shape, a level holding nothing but its reference and a label (no shapes of its own), leaf shapes on (layer, datatype) pairs with data types of 256 / 300 / -1 next to small ones, leaf shapes 6e6 .. 2e9 units away from the origin, struct names that differ only in letter case. Non-trivial = has at least one reference.",
                 self.bound(tier)
             ),
             Part::Deep => "4-level chains, structs in every one of the 24 listing orders, every reference SREF or AREF x 8 orientations (free), leaf content CW rectangle or L-polygon; the costed alphabet of [hier] with deviation bound 1.".into(),
@@ -851,7 +855,7 @@ impl CaseDriver for C06 {
                 "one cell: shape kind (7) x label position {{inside, on an edge, on a vertex, just outside, far outside}} x vertex list started at each of 4 vertices x both directions (paths: drawn from either end) x label on the same / another layer x second shape {{none, same layer overlapping, other layer, same layer other datatype}} x second label {{none, same point listed before, same point listed after, inside with another string}} (all free); costed (bound {}): strings (mixed / upper / single-letter case pairs), element order (shapes first, labels first, interleaved), a diagonal path on the labels' layer. Non-trivial = every case (each has a label).",
                 self.bound(tier)
             ),
-            Part::Grid => "one cell holding one shape (each of the 7 kinds plus a three-segment path of width 3, a path of width 1 and two paths with a diagonal segment before / between axis-parallel ones, vertex list started at each of 4 vertices, both directions) and one same-layer label at every point of the lattice spanned by the shape's vertex coordinates: every vertex x / y and its neighbours at -3..=3, plus the midpoints between consecutive ones - on, next to and away from every edge and every extended edge line, inside and outside the bounding box (paths: the points whose membership the statement fixes). All free (no deviation bound).".into(),
+            Part::Grid => "one cell holding one shape (each of the 7 kinds plus a three-segment path of width 3, a path of width 1, two paths with a diagonal segment before / between axis-parallel ones and a path returning to its first point, vertex list started at each of 4 vertices, both directions) and one same-layer label at every point of the lattice spanned by the shape's vertex coordinates: every vertex x / y and its neighbours at -3..=3, plus the midpoints between consecutive ones - on, next to and away from every edge and every extended edge line, inside and outside the bounding box (paths: the points whose membership the statement fixes). All free (no deviation bound).".into(),
             Part::Mal => "malformed libraries: dangling SREF / AREF, self-reference by SREF / AREF, 2-cycle, 3-cycle (through an AREF), cols = 0, rows = 0, boundary with empty xy, path with empty xy (required outcome: Err), plus boundary not closed, path without width, SREF abs_mag, AREF abs_angle (Err expected and the only outcome judged); each as the whole library and below a well-formed top cell; every listing order (quick: cyclic libraries in every rotation).".into(),
         };
         Describe {
